@@ -65,12 +65,13 @@ NextProps ==
 \* what the harness can observe of one call
 Observations(op) ==
   IF op.k \in {"set", "get"} THEN {<<r, FALSE, c>> : r \in {"ok", "Error"}, c \in BOOLEAN}
-  ELSE IF op.k = "str" THEN {<<"ok", FALSE, FALSE>>, <<"ok", TRUE, FALSE>>, <<"Error", FALSE, FALSE>>}
+  ELSE IF op.k = "str" THEN {<<"ok", FALSE, FALSE>>, <<"ok", TRUE, FALSE>>, <<"ok", TRUE, TRUE>>,
+                             <<"Error", FALSE, FALSE>>}
   ELSE {<<"ok", FALSE, FALSE>>, <<"Error", FALSE, FALSE>>}
 \* (as in TraceFields: a Get outcome that replaced the stored object needs that observation;
 \*  one that did not matches either way -- re-storing an equal decoded object is not a change)
 Matching(s, op, ob) == {o \in Step(s, op) : /\ o.res = ob[1] /\ o.mark = ob[2]
-                                            /\ IF op.k = "get" THEN o.chg => ob[3] ELSE o.chg = ob[3]}
+                                            /\ IF op.k \in {"get", "str"} THEN o.chg => ob[3] ELSE o.chg = ob[3]}
 NextEquiv ==
   \E op \in C18Ops(fld, "orig") : \E ob \in Observations(op) :
      /\ alive' = UNION {{o.st : o \in Matching(s, op, ob)} : s \in alive}
@@ -107,8 +108,9 @@ ASSUME CatalogueOK
    Get / Write / ValidateField / Validate / Str or by a marked Str.
    Poss(h, lvl, j): the value classes the field may hold before call j given
    everything observed so far ({} = some earlier call contradicted the
-   statement).  More than one class is possible only at level 0, after a Get
-   replaced an invalid encoded value by the decoded object.                    *)
+   statement).  More than one class is possible only at level 0, after a Get (or
+   the marked Str, which reads the fields it cannot write) replaced an invalid
+   encoded value by the decoded object.                                        *)
 OnOrig(h) == \A j \in DOMAIN h : h[j].op.t = "orig" /\ h[j].op.k \in ReadKinds \cup {"set"}
 Eff(h, j) == LET S == {i \in 1..(j - 1) : h[i].op.k = "set" /\ h[i].chg} IN
              IF S = {} THEN 0 ELSE CHOOSE i \in S : \A k \in S : k <= i
@@ -133,7 +135,7 @@ Poss(h, lvl, j) ==
            Q == {c \in Poss(h, lvl, j - 1) : CallOK(h, lvl, j - 1, c)} IN
        IF Q = {} THEN {}
        ELSE IF e.op.k = "set" THEN (IF e.chg THEN {e.op.c} ELSE Q)
-       ELSE IF e.op.k = "get" /\ e.chg /\ e.res = "ok" THEN
+       ELSE IF (e.op.k = "get" \/ (e.op.k = "str" /\ e.mark)) /\ e.chg /\ e.res = "ok" THEN
             \* the stored object was replaced by the read
             (IF lvl = 0 THEN Q \cup {"valid"} ELSE Q)
        ELSE Q
